@@ -105,6 +105,7 @@ theorem litOk_toks (n : Lit) (h : LitOk n = true) : toks (litPiecesT n) = [.lit 
   split at h
   · rename_i m s heq
     simp at h
+    obtain ⟨h, _⟩ := h
     subst h
     simp [heq]
   · simp at h
